@@ -1,3 +1,4 @@
+import numpy as np
 from vg.compat import v2 as vg
 from .._common.shape import check_shape_any
 
@@ -18,8 +19,16 @@ def project_point_to_line(points, reference_points_of_lines, vectors_along_lines
     )
     vg.shape.check(locals(), "vectors_along_lines", reference_points_of_lines.shape)
 
+    # Scale each direction by a power of two so that its largest component is
+    # in [0.5, 1). The direction of the line is unchanged (and so is the
+    # result, bit for bit, for vectors of ordinary length), but squaring the
+    # components while normalizing can no longer overflow or underflow.
+    _, exponents = np.frexp(
+        np.max(np.abs(vectors_along_lines), axis=-1, keepdims=True)
+    )
     return reference_points_of_lines + vg.project(
-        points - reference_points_of_lines, onto=vectors_along_lines
+        points - reference_points_of_lines,
+        onto=np.ldexp(vectors_along_lines, -exponents),
     )
 
 
